@@ -99,12 +99,17 @@ fn run_hist(ctx: &mut Ctx, from: u64, to: u64, update_state_mode: bool) {
         let n_ops = rng.below(9);
         let mut ops = vec![];
         for _ in 0..n_ops {
-            let op = match rng.weighted(&[18, 6, 10, 10, 22, 10, 8, 10, 4, 4]) {
+            let op = match rng.weighted(&[18, 8, 10, 10, 22, 10, 8, 10, 4, 4]) {
                 0 => {
                     let t: &Vec<char> = rng.pick(&all_texts);
                     Op::Update(Fmt::Raw, to_string(t))
                 }
-                1 => Op::Update(Fmt::Raw, if rng.chance(1, 2) { String::new() } else { "a\0b".into() }),
+                1 => Op::Update(Fmt::Raw, match rng.below(3) {
+                    0 => String::new(),
+                    1 => "a\0b".into(),
+                    // a genuine one-space text (handed over as a borrowed literal, see below)
+                    _ => " ".into(),
+                }),
                 2 => Op::Update(Fmt::Tok, {
                     let t: &Vec<char> = rng.pick(&all_texts);
                     let mut s = String::new();
@@ -206,7 +211,12 @@ fn run_hist(ctx: &mut Ctx, from: u64, to: u64, update_state_mode: bool) {
         for (i, op) in ops.iter().enumerate() {
             let r = guard(|| match op {
                 Op::Update(f, inp) => {
-                    let ok = sut_update(&mut s, *f, inp).is_ok();
+                    let ok = if *f == Fmt::Raw && inp == " " {
+                        // borrowed text: the same representation the fallback sentence uses internally
+                        s.update_raw(" ").is_ok()
+                    } else {
+                        sut_update(&mut s, *f, inp).is_ok()
+                    };
                     (None, !ok)
                 }
                 Op::Predict(pi) => {
